@@ -51,15 +51,23 @@ Finish == /\ Mode = "gen" /\ phase = "build" /\ pend = "" /\ ~CanGrow /\ items #
           /\ nd' = Len(Stuff(Script(items).bits, Ws))
           /\ phase' = "fault" /\ UNCHANGED <<mode, items, raw, pend, faults>>
 Cap == Capacity(Ncw, nd)
-MaskOf(kind, i) == CASE kind = 0 -> 1 [] kind = 1 -> (2^Ws) - 1 [] OTHER -> (((i * 37) + (11 * kind)) % ((2^Ws) - 1)) + 1
-FaultSets ==
-  {fs \in {[i \in 1..cnt |-> <<(st + ((i-1) * sd)) % Ncw, MaskOf(mk, i)>>] :
+\* damage masks: one bit, all bits, pseudo-random; kinds 4 / 5 turn a DATA codeword into all-0 / all-1 (what a blot of white or
+\* black makes of it - values no undamaged codeword ever has, which a decoder may be tempted to treat specially)
+MaskOf(kind, i, w, dws) ==
+  CASE kind = 0 -> 1 [] kind = 1 -> (2^Ws) - 1
+    [] kind = 4 /\ w < Len(dws) -> dws[w + 1]
+    [] kind = 5 /\ w < Len(dws) -> ((2^Ws) - 1) - dws[w + 1]
+    [] OTHER -> (((i * 37) + (11 * kind)) % ((2^Ws) - 1)) + 1
+FaultSets(kinds) ==
+  LET dws == Stuff(Script(items).bits, Ws) IN
+  {fs \in {[i \in 1..cnt |-> LET w == (st + ((i-1) * sd)) % Ncw IN <<w, MaskOf(mk, i, w, dws)>>] :
               cnt \in {x \in {1, Cap \div 2, Cap} : x >= 1},
               st \in {0, nd - 1, Ncw - 1} \cup {(k * 37) % Ncw : k \in 1..12},
-              sd \in {1, 2, 5}, mk \in 0..3} :
-     Cardinality({fs[i][1] : i \in 1..Len(fs)}) = Len(fs)}
+              sd \in {1, 2, 5}, mk \in kinds} :
+     /\ Cardinality({fs[i][1] : i \in 1..Len(fs)}) = Len(fs)
+     /\ (kinds \subseteq {4, 5} => \E i \in 1..Len(fs) : fs[i][1] < nd)}
 Fault == /\ phase = "fault" /\ Len(faults) < NFaults /\ Cap >= 1
-         /\ \E fs \in FaultSets : faults' = Append(faults, fs)
+         /\ \E fs \in FaultSets(IF Len(faults) + 1 = NFaults /\ NFaults > 2 THEN {4, 5} ELSE 0..3) : faults' = Append(faults, fs)   \* the last set blots
          /\ UNCHANGED <<mode, items, raw, pend, phase, nd>>
 EmitSym == /\ phase = "fault" /\ (Len(faults) >= NFaults \/ Cap < 1) /\ nd + 3 <= Ncw
            /\ \E s \in {Sym(Compact, Layers, items, TRUE)}, sp \in {Spiral(Compact, Layers)} :   \* (bound once: LET is re-evaluated per use in actions)
